@@ -8,8 +8,23 @@
    REGENERATED from the source (Gen.Decisions) on the table regenerated from the source
    (Gen.Tables.t_defaultLayouts) - selects zone and layout; the selected rendering, framed,
    must be the observed bytes.  A selected (zone, layout) that is not among the candidates
-   is a mismatch. *)
+   is a mismatch.
+
+   The case also carries the instant itself (unix seconds, nanoseconds) and the zone the
+   instant came in (offset and abbreviation in force at that instant, what Time.Zone()
+   says).  The model of Go's layout language (Model/TimeFmt.v) renders the instant in the
+   zone the model selected with the layout the model selected; that text, framed, must be
+   the OBSERVED bytes too (and therefore the candidate Go rendered).  Where the instant is
+   outside the domain of format_time (civil year outside 0..9999) only the candidate route
+   applies; the harness says which route it expects ([c_model]) so that the counts it
+   reports are checked here.  On the modelled route the specification-side reader
+   parse_time is run on the rendered (= observed) text: where the selected layout and zone
+   are in the domain of the round-trip theorem ([c_roundtrip], determined independently by
+   the harness) it must give back the instant truncated to the layout's unit and the
+   offset; and wherever Go's own time.Parse read the text ([c_goparse]) and the layout is
+   readable, the reader must agree with it. *)
 Require Import Verif.Model.Base Verif.Model.Decision Verif.Model.Mode Verif.Model.DecisionRef Verif.Model.Time.
+Require Import Verif.Model.TimeFmt.
 Require Import Verif.Gen.Tables Verif.Gen.Decisions.
 
 Record case := mk {
@@ -18,7 +33,14 @@ Record case := mk {
   c_flags : Z;                         (* slog.GetFlags() at the time of the record *)
   c_shape : shape;
   c_cands : list (zone * bytes * bytes);   (* (zone, layout, rendered) *)
-  c_observed : bytes
+  c_observed : bytes;
+  c_sec : Z;                           (* the record's instant: Unix seconds *)
+  c_nsec : Z;                          (*   and nanoseconds *)
+  c_off : Z;                           (* its own zone at that instant: seconds east of UTC *)
+  c_abbrev : bytes;                    (*   and abbreviation *)
+  c_model : bool;                      (* harness: the instant is in format_time's domain *)
+  c_roundtrip : bool;                  (* harness: layout and zone are in the round-trip theorem's domain *)
+  c_goparse : option (Z * Z * Z)       (* time.Parse(layout, text) = (unix s, ns, offset), when it succeeded *)
 }.
 
 Fixpoint lookup_cand (cs : list (zone * bytes * bytes)) (z : zone) (l : bytes) : option bytes :=
@@ -39,10 +61,49 @@ Definition timestamp_gen (render : zone -> bytes -> bytes)
   timestamp_text sh (render (Decisions.zone_choice (utc_state_gen utc_call) flags)
                             (Decisions.layout_choice t_defaultLayouts (layout_state_gen layout_call) flags)).
 
-Definition ok (c : case) : bool :=
+(* the candidate route (Go's own renderings, the model selects) *)
+Definition ok_cand (c : case) : bool :=
   let z := Decisions.zone_choice (utc_state_gen (c_utc c)) (c_flags c) in
   let l := Decisions.layout_choice t_defaultLayouts (layout_state_gen (c_layout c)) (c_flags c) in
   match lookup_cand (c_cands c) z l with
   | None => false
   | Some r => bytes_eqb (timestamp_text (c_shape c) r) (c_observed c)
   end.
+
+(* the zone a choice means for this instant *)
+Definition utc_abbrev : bytes := ["U"%byte; "T"%byte; "C"%byte].
+Definition zone_params (c : case) (z : zone) : Z * bytes :=
+  match z with ZoneUTC => (0, utc_abbrev) | ZoneOwn => (c_off c, c_abbrev c) end.
+
+Definition triple_eqb (a b : Z * Z * Z) : bool :=
+  let '(a1, a2, a3) := a in let '(b1, b2, b3) := b in (a1 =? b1) && (a2 =? b2) && (a3 =? b3).
+
+(* the model's rendering of the case: layout and zone chosen by the generated decisions *)
+Definition model_text (c : case) : option bytes :=
+  let z := Decisions.zone_choice (utc_state_gen (c_utc c)) (c_flags c) in
+  let l := Decisions.layout_choice t_defaultLayouts (layout_state_gen (c_layout c)) (c_flags c) in
+  let '(off, ab) := zone_params c z in
+  format_time l (c_sec c) (c_nsec c) off ab.
+
+(* the modelled route *)
+Definition ok_model (c : case) : bool :=
+  let z := Decisions.zone_choice (utc_state_gen (c_utc c)) (c_flags c) in
+  let l := Decisions.layout_choice t_defaultLayouts (layout_state_gen (c_layout c)) (c_flags c) in
+  let '(off, ab) := zone_params c z in
+  match format_time l (c_sec c) (c_nsec c) off ab with
+  | None => negb (c_model c)
+  | Some r =>
+      c_model c
+      && bytes_eqb (timestamp_text (c_shape c) r) (c_observed c)
+      && (let its := tokens l in
+          let dom := items_roundtrip its && zone_fits its off in
+          let u := layout_unit its in
+          Bool.eqb dom (c_roundtrip c)
+          && (if dom then option_eqb triple_eqb (parse_time l r) (Some (c_sec c, c_nsec c / u * u, off)) else true)
+          && (match c_goparse c with
+              | Some g => if items_parse its then option_eqb triple_eqb (parse_time l r) (Some g) else true
+              | None => true
+              end))
+  end.
+
+Definition ok (c : case) : bool := ok_cand c && ok_model c.
